@@ -4,12 +4,13 @@ CONSTANTS
   QuoteChoices <- Quotes
   EscChoices <- Escs
   CellChars <- Cells
-  MaxChars = 2
-  MaxCells = 2
-  MaxRaw = 0
-  MaxRows = 1
-  LoaderRefusesClash = FALSE
+  MaxChars = 0
+  MaxCells = 0
+  MaxRaw = 4
+  MaxRows = 0
+  LoaderRefusesClash = TRUE
 INVARIANT TypeOK
 INVARIANT RoundTrip
+INVARIANT RawNeverLonger
 INVARIANT Emit
 CHECK_DEADLOCK FALSE
